@@ -216,6 +216,17 @@ def one_model(ctx, imp, tag):
                 ctx.violation('C13/rewrite-changes-other-properties', 're-keying leaves other properties alone', dict(w, node=nid))
         if rk['edges'] != part['edges']:
             ctx.violation('C13/rewrite-changes-edges', 're-keying leaves connections alone', dict(w, delegation=d))
+        # re-keying to the key the delegations already carry (what the combined-model merge does with a clone of a model
+        # that was re-keyed before) is the identity
+        ctx.count('clause:rewrite-to-same-key')
+        try:
+            a2.rewrite_delegations(real_adm_id=newkey)
+            rk2 = canon.graph_snapshot(imp, adm.graph_id)
+            if not canon.typed_equal(rk2, rk):
+                ctx.violation('C13/rewrite-to-same-key-changes-model', 're-keying a partition\'s delegations changes only the key '
+                              '(nothing, when the key is already the requested one)', dict(w, delegation=d, diff=canon.diff(rk, rk2)))
+        except Exception as e:
+            ctx.violation('C13/rewrite-delegations-raises', f'{type(e).__name__}: {str(e)[:200]}', dict(w, delegation=d, second=True))
     if tag == 0:
         ctx.sample({'kind': kind, 'script': site.script[:5], 'delegations': dict(list(site.delegations.items())[:3])})
 
